@@ -397,6 +397,27 @@ Section HandlerShapes.
           | apply shape_var; exact W
           | apply shape_var_tail; exact W ].
   Qed.
+
+  Lemma run_safe_pre a : safe_pre e a = true -> run a en s = (Normal, s, []).
+  Proof.
+    induction a; intros H; cbn in H; try discriminate.
+    - apply Nat.eqb_eq in H. subst e0. cbn [run]. rewrite Hn. reflexivity.
+    - apply andb_true_iff in H. destruct H as [H1 H2].
+      cbn [run]. rewrite (IHa1 H1), (IHa2 H2). reflexivity.
+    - apply andb_true_iff in H. destruct H as [H1 H2]. cbn [run]. destruct (flag en k); auto.
+    - reflexivity.
+  Qed.
+
+  Lemma wf_handler_pre_exec Hp : wf_handler_pre e Hp = true ->
+    good_trace en (EntryCall :: finish (run Hp en s)).
+  Proof.
+    induction Hp; intros W; cbn [wf_handler_pre] in W;
+      try (rewrite orb_false_r in W; apply wf_handler_exec; exact W).
+    apply orb_true_iff in W. destruct W as [W|W]; [apply wf_handler_exec; exact W|].
+    apply andb_true_iff in W. destruct W as [S W].
+    cbn [run]. rewrite (run_safe_pre _ S).
+    specialize (IHHp2 W). destruct (run Hp2 en s) as [[o2 s2] t2]. exact IHHp2.
+  Qed.
 End HandlerShapes.
 
 Lemma wf_core_good fb p en :
@@ -419,7 +440,7 @@ Proof.
   - (* admitted *)
     cbn [run]. cbn [enil errv dstack]. rewrite upd_same.
     match goal with |- context [run ?Hp en ?s1] =>
-      assert (G := wf_handler_exec _ en s1 (upd_same _ _ _) eq_refl Eb Hp WH);
+      assert (G := wf_handler_pre_exec _ en s1 (upd_same _ _ _) eq_refl Eb Hp WH);
       destruct (run Hp en s1) as [[o2 s2] t2] end.
     cbn in G |- *. destruct (run_defers (dstack s2)) as [pd td]. exact G.
 Qed.
@@ -541,6 +562,35 @@ Lemma all_adapters_all_envs k l :
   Contract en (exec (a_body a) en).
 Proof. intros H a Ha. rewrite forallb_forall in H. apply adapter_ok_all_envs with (k := k). apply H. exact Ha. Qed.
 
+(* dropping the statements without modelled effect changes nothing *)
+Lemma run_simp p en s : run (simp p) en s = run p en s.
+Proof.
+  revert s. induction p; intros s; cbn [simp]; try reflexivity.
+  - cbn [run]. rewrite IHp1, IHp2. reflexivity.
+  - cbn [run]. rewrite IHp1, IHp2. reflexivity.
+  - cbn [run]. rewrite IHp1, IHp2. reflexivity.
+  - (* Seq *)
+    destruct (quiet (simp p1)) eqn:Q1.
+    + cbn [run]. rewrite <- IHp1, (run_quiet _ en s Q1), IHp2.
+      destruct (run p2 en s) as [[o2 s2] t2]. reflexivity.
+    + destruct (quiet (simp p2)) eqn:Q2.
+      * cbn [run]. rewrite <- IHp1. destruct (run (simp p1) en s) as [[o1 s1] t1].
+        destruct o1; try reflexivity.
+        rewrite <- IHp2, (run_quiet _ en s1 Q2), app_nil_r. reflexivity.
+      * cbn [run]. rewrite IHp1. destruct (run p1 en s) as [[o1 s1] t1].
+        destruct o1; try reflexivity. rewrite IHp2. reflexivity.
+  - (* IfOpt *)
+    destruct (quiet (simp p1)) eqn:Q1; destruct (quiet (simp p2)) eqn:Q2; cbn [andb];
+      cbn [run]; rewrite <- ?IHp1, <- ?IHp2; try reflexivity.
+    rewrite (run_quiet _ en s Q1), (run_quiet _ en s Q2). destruct (flag en k); reflexivity.
+Qed.
+
+Lemma exec_simp p en : exec (simp p) en = exec p en.
+Proof. unfold exec. rewrite run_simp. reflexivity. Qed.
+
 Lemma wf_adapter_contract a : wf_adapter a = true ->
   forall en, (fallback en = true -> a_fb a = true) -> Contract en (exec (a_body a) en).
-Proof. unfold wf_adapter. intros W en Hfb. apply wf_implies_contract with (fb := a_fb a); assumption. Qed.
+Proof.
+  unfold wf_adapter. intros W en Hfb. rewrite <- exec_simp.
+  apply wf_implies_contract with (fb := a_fb a); assumption.
+Qed.
